@@ -1087,8 +1087,9 @@ _router_entry("C02",
     "Lean 4 theorems over the matcher's parameter threading + differential correspondence of handler-visible params, Tree.Match params and URLPath re-assembly",
     "Parameters are modelled exactly as the matcher threads them (including values left by abandoned branches); theorems over all "
     "routes/paths; correspondence compares, for every dispatched request, the values of the winning form's binds, `route`, and the "
-    "URL rebuilt from them, at Flame and Tree level.",
-    lambda s, R, M: rp.cmp_dispatch(s, R, M, params=True),
+    "URL rebuilt from them, at Flame and Tree level; in sessions in which the code accepted a registration the model refuses, "
+    "the round-trip clause is checked on the real outputs alone.",
+    rp.cmp_params,
     lambda op, r, m, n: r.startswith("h ") and "=" in (m.split()[3] if len(m.split()) > 3 else ""),
     "case = (route set, request); non-trivial = dispatched to a route whose winning form has at least one bind")
 PROPS["C02"]["props_modules"] = ["Flamego.Props.C02", "Flamego.Proofs.Params", "Flamego.Proofs.ParamsAdd", "Flamego.Proofs.ParamsUrl", "Flamego.Proofs.ParamsRegex"]
